@@ -6,7 +6,7 @@
 //!   patterns : a pool with optional, nested, named and empty-matching groups and anchors
 //!   templates: every sequence of <= 2 tokens over the reference grammar ($1 $2 $0 $n ${n} ${1} ${1}a $1a $$ $ x),
 //!              and of <= 3 tokens for the inputs of <= 3 bytes
-//!   inputs   : every text over {a, b, ' ', \n} of <= VERIF_REPLACE_LEN bytes (default 5)
+//!   inputs   : every text of <= VERIF_REPLACE_LEN units over {a, b, ' ', \n, U+00E9 (two bytes)} (default 5)
 //!   modes    : plain, --only-matching, -U (multi-line searcher), --crlf is not enumerated
 //! (Braced references with a non-word name are the listed known finding of find_cap_ref and are not used.)
 //! VERIF_REPLACE_CLASS=known runs ONLY the inputs of the listed known finding (see `known_class`), the
@@ -50,14 +50,16 @@ fn words(max: usize) -> Vec<String> {
 }
 
 fn inputs(max: usize) -> Vec<Vec<u8>> {
+    // units: a, b, space, newline and one two-byte character (empty matches fall inside it, byte-wise)
+    let units: [&[u8]; 5] = [b"a", b"b", b" ", b"\n", "\u{e9}".as_bytes()];
     let mut out: Vec<Vec<u8>> = vec![vec![]];
     let mut cur: Vec<Vec<u8>> = vec![vec![]];
     for _ in 0..max {
         let mut next = vec![];
         for w in &cur {
-            for &b in ALPHA {
+            for u in units {
                 let mut v = w.clone();
-                v.push(b);
+                v.extend_from_slice(u);
                 next.push(v);
             }
         }
